@@ -765,7 +765,13 @@ def session_lifecycle(ctx, rule='C13.session-lifecycle'):
                 'keys are derived without checking that the public-key exchange took place (dh_key may still be empty): a peer that skips the Public Key PDU gets an LTK derived from an empty shared secret', p.loc(sc))
 
 
+def identity_rule(ctx):
+    from ..generic_rules import identity_compare
+    identity_compare(ctx, 'C13.identity', ['bumble.smp', 'bumble.crypto', 'bumble.pairing'])
+
+
 RULES = [
+    ('C13.identity', identity_rule),
     ('C13.session-lifecycle', session_lifecycle),
     ('C13.zero-valid', zero_valid),
     ('C13.stk-scope', stk_scope),
